@@ -75,9 +75,18 @@ type countingReader struct {
 	loopFrom  int // >=0: endless, restart here
 	chunk     int
 	count     int64
+	// hookAt > 0: hook is called once, from inside Read, when the read position
+	// has reached hookAt (used to cancel while a Scan is in progress)
+	hookAt int
+	hook   func()
 }
 
 func (r *countingReader) Read(p []byte) (int, error) {
+	if r.hook != nil && r.hookAt > 0 && r.pos >= r.hookAt {
+		h := r.hook
+		r.hook = nil
+		h()
+	}
 	if r.pos >= len(r.data) {
 		if r.loopFrom < 0 {
 			return 0, io.EOF
@@ -535,13 +544,29 @@ type XCase struct {
 	After  []int
 	Chunk  int
 	CutAt  int // >0: truncate the document after this many bytes (clamped)
+	// Filler > 0: after element FillerAfter the document holds Filler bytes of
+	// comments and unknown elements (no OSM objects); with CancelInFiller the
+	// context is cancelled from inside Read, by a second goroutine, once the
+	// reader is 1000 bytes into that stretch, i.e. while a Scan is in progress.
+	Filler         int
+	FillerAfter    int
+	CancelInFiller bool
 }
 
-func xmlDoc(n int) ([]byte, []int) {
+func xmlDoc(n int) ([]byte, []int) { d, e, _ := xmlDocFiller(n, 0, 0); return d, e }
+
+func xmlDocFiller(n, filler, fillerAfter int) ([]byte, []int, int) {
 	var b bytes.Buffer
 	var ends []int
+	fillerStart := -1
 	b.WriteString("<?xml version=\"1.0\" encoding=\"UTF-8\"?>\n<osm version=\"0.6\">\n")
 	for i := 1; i <= n; i++ {
+		if filler > 0 && i == fillerAfter+1 {
+			fillerStart = b.Len()
+			for b.Len()-fillerStart < filler {
+				b.WriteString(" <!-- nothing to see here, move along -->\n <meta osm_base=\"x\"><extra a=\"1\"/>text</meta>\n")
+			}
+		}
 		switch i % 3 {
 		case 0:
 			fmt.Fprintf(&b, " <node id=\"%d\" lat=\"1.5\" lon=\"2.5\" version=\"1\" visible=\"true\"><tag k=\"k\" v=\"v%d\"/></node>\n", i, i)
@@ -552,8 +577,14 @@ func xmlDoc(n int) ([]byte, []int) {
 		}
 		ends = append(ends, b.Len())
 	}
+	if filler > 0 && fillerAfter >= n {
+		fillerStart = b.Len()
+		for b.Len()-fillerStart < filler {
+			b.WriteString(" <!-- nothing to see here, move along -->\n <meta osm_base=\"x\"><extra a=\"1\"/>text</meta>\n")
+		}
+	}
 	b.WriteString("</osm>\n")
-	return b.Bytes(), ends
+	return b.Bytes(), ends, fillerStart
 }
 
 func idOf(o osm.Object) int64 {
@@ -570,9 +601,61 @@ func idOf(o osm.Object) int64 {
 
 var lastX outcome
 
+// checkCancelInFiller: cancellation lands while Scan is skipping a long
+// stretch without objects; the scan must stop there, not at the next object.
+func checkCancelInFiller(c XCase) error {
+	fa := c.FillerAfter % (c.N + 1)
+	doc, _, fillerStart := xmlDocFiller(c.N, c.Filler, fa)
+	ctx, cancel := context.WithCancel(context.Background())
+	defer cancel()
+	cancelled := make(chan struct{})
+	r := &countingReader{data: doc, loopFrom: -1, chunk: c.Chunk, hookAt: fillerStart + 1000}
+	r.hook = func() {
+		go func() { cancel(); close(cancelled) }()
+		<-cancelled // the cancellation has happened before this Read returns
+	}
+	s := osmxml.New(ctx, r)
+	defer s.Close()
+	delivered := 0
+	for s.Scan() {
+		delivered++
+		if id := idOf(s.Object()); id != int64(delivered) {
+			return harness.Failf("C07/xml-object-before-stop", "object %d has id %d", delivered, id)
+		}
+		if delivered > c.N {
+			return harness.Failf("C07/xml-extra-object", "more objects than the document holds")
+		}
+	}
+	select {
+	case <-cancelled:
+	default:
+		return harness.Failf("C07/harness", "the filler was never reached (delivered %d, err %v)", delivered, s.Err())
+	}
+	if delivered != fa {
+		return harness.Failf("C07/xml-scan-continues-after-cancel", "context cancelled while Scan was %d bytes into a stretch without objects after element %d: Scan went on and delivered %d objects", 1000, fa, delivered)
+	}
+	if err := s.Err(); !errors.Is(err, context.Canceled) {
+		return harness.Failf("C07/xml-err-value", "after cancellation during Scan: Err() = %v, want context canceled", err)
+	}
+	read := atomic.LoadInt64(&r.count)
+	bound := int64(fillerStart + 1000 + 3*4096 + c.Chunk)
+	if read > bound && bound < int64(len(doc)) {
+		return harness.Failf("C07/xml-stop-consumes-input", "cancelled at byte %d of %d: %d bytes were read (bound %d)", fillerStart+1000, len(doc), read, bound)
+	}
+	if s.Scan() {
+		return harness.Failf("C07/xml-scan-after-stop", "Scan returned true after cancellation")
+	}
+	lastX.nontrivial = true
+	lastX.classes = append(lastX.classes, "cancel-during-scan")
+	return nil
+}
+
 func checkXML(c XCase) error {
 	lastX = outcome{}
-	doc, ends := xmlDoc(c.N)
+	if c.CancelInFiller && c.Filler >= 20000 { // the stretch must outlast the decoder's read-ahead (4 KiB + chunk) past the cancel point
+		return checkCancelInFiller(c)
+	}
+	doc, ends, _ := xmlDocFiller(c.N, c.Filler, c.FillerAfter%(c.N+1))
 	total := c.N
 	truncated := false
 	if c.CutAt > 0 {
@@ -698,7 +781,7 @@ func checkXML(c XCase) error {
 		if delivered > 0 {
 			last = ends[delivered-1]
 		}
-		if bound := int64(last + 3*4096 + 200); stop != stopNone && readAtStop > bound && bound < int64(len(doc)) {
+		if bound := int64(last + 3*4096 + 200); stop != stopNone && !completed && readAtStop > bound && bound < int64(len(doc)) {
 			return harness.Failf("C07/xml-stop-consumes-input", "stop after %d objects (byte %d): %d bytes read, bound %d", delivered, last, readAtStop, bound)
 		}
 	}
@@ -715,7 +798,7 @@ func checkXML(c XCase) error {
 func TestXMLStop(t *testing.T) {
 	harness.Run(t, harness.Spec[XCase]{
 		Name: "xml-stop", N: 1000,
-		Rule: "the same call-history machine against osmxml.Scanner on documents of 1..400 elements (20% truncated): k Scans, Close / cancel / nothing, then Scan/Err/Close calls; oracle = same Err precedence model, every Scan after the stop false, no read from the reader after the stop, bytes read bounded by the last delivered element + decoder buffering; non-trivial = stop strictly inside the document",
+		Rule: "the same call-history machine against osmxml.Scanner on documents of 1..400 elements (20% truncated, a third with a 2-200 KB stretch of comments/unknown elements): k Scans, Close / cancel / nothing, or cancellation from a second goroutine issued from inside Read while Scan is skipping that stretch (Scan must stop there, Err = context canceled, bounded further reads), then Scan/Err/Close calls; oracle = same Err precedence model, every Scan after the stop false, no read from the reader after the stop, bytes read bounded by the last delivered element + decoder buffering; non-trivial = stop strictly inside the document",
 		Gen: func(t *rapid.T) XCase {
 			c := XCase{N: rapid.IntRange(1, 400).Draw(t, "n")}
 			c.K = rapid.IntRange(0, c.N+2).Draw(t, "k")
@@ -725,10 +808,18 @@ func TestXMLStop(t *testing.T) {
 			if rapid.IntRange(0, 4).Draw(t, "cut?") == 0 {
 				c.CutAt = rapid.IntRange(1, 1<<20).Draw(t, "cut")
 			}
+			if rapid.IntRange(0, 2).Draw(t, "filler?") == 0 {
+				c.Filler = rapid.SampledFrom([]int{2000, 20000, 200000}).Draw(t, "filler")
+				c.FillerAfter = rapid.IntRange(0, c.N).Draw(t, "fillerAfter")
+				c.CancelInFiller = rapid.Bool().Draw(t, "cancelInFiller")
+				if c.CancelInFiller {
+					c.CutAt = 0
+				}
+			}
 			return c
 		},
 		Check:    checkXML,
 		Classify: func(c XCase) (bool, []string) { return lastX.nontrivial, lastX.classes },
-		Floors:   map[string]float64{"stop-mid-scan": 0.3},
+		Floors:   map[string]float64{"stop-mid-scan": 0.25, "cancel-during-scan": 0.1},
 	})
 }
